@@ -60,9 +60,12 @@ func main() {
 					round = 0
 				}
 				base := round * n * iv
-				step := int64(1)
-				if !run.Thorough() {
-					step = iv / 4 // quarter-slot steps plus the exact boundaries below
+				// coarse sweep over ±3 slots, every ms in a window around each of the 7 slot boundaries
+				step := iv / 4
+				win := int64(2)
+				if run.Thorough() {
+					step = iv / 16
+					win = 40
 				}
 				check := func(ms int64) {
 					ns := ms*1000000 + int64(rng.Intn(1000000))
@@ -92,7 +95,7 @@ func main() {
 					check(ms)
 				}
 				for k := int64(-3); k <= 3; k++ {
-					for d := int64(-2); d <= 2; d++ {
+					for d := -win; d <= win; d++ {
 						check(base + k*iv + d)
 					}
 				}
